@@ -7,6 +7,7 @@ pub mod mon;
 pub mod plug;
 pub mod pool;
 pub mod psrc;
+pub mod refm;
 pub mod rng;
 pub mod val;
 
